@@ -77,6 +77,14 @@ def build_module(shared, imported=False):
             body = pre + core + ([] if op == 'store' else ext) + [('local.set', tmp), ('drop',), ('local.get', tmp), ('i64.xor',)]
             m.add_func(ps, [I64], [(1, I64)], body, export=ex)
             ctx.append((t, w, op, n, ex))
+            if op != 'store':
+                # the result is consumed directly by a comparison / shift / store-value position: (result == K) + (result >> 3) etc.
+                for sfx, tail in (('shr', [('%s.const' % t, 3), ('%s.shr_u' % t,)] + ([] if t == 'i64' else [('i64.extend_i32_u',)])),
+                                  ('eqz', [('%s.eqz' % t,), ('i64.extend_i32_u',)]),
+                                  ('cvt', [('f64.convert_%s_u' % t,), ('i64.reinterpret_f64',)])):
+                    ex2 = '%s_%s' % (sfx, n.replace('.', '_'))
+                    m.add_func(ps, [I64], [], core + tail, export=ex2)
+                    ctx.append((t, w, op, n, ex2))
     m.ctx_names = ctx
     # "split" alignment: the static offset alone is NOT a multiple of the access width and neither is the address operand, but their sum
     # is naturally aligned (what the instruction requires is the alignment of the effective address)
